@@ -68,7 +68,7 @@ OPEN_TYPE_oer_get(const asn_codec_ctx_t *opt_codec_ctx,
         /* Fall through */
     case -1:
         rv.code = RC_FAIL;
-        rv.consumed = ot_ret;
+        rv.consumed = 0;
         break;
     case 0:
         rv.code = RC_WMORE;
